@@ -117,3 +117,37 @@ Proof.
   repeat split; assumption.
 Qed.
 Print Assumptions C13_time_alone_clears_every_exemption.
+
+(* Configuration plumbing (Model/Config.v, transcribing ConfigBuilder, Config, Discv5::new / Discv5::start,
+   tied to the code by the `glue` correspondence run on real loopback sockets): the parameters the theorems
+   above take as given are the ones the application configured - the value set last through the builder,
+   or the default - at every component they are handed to. *)
+Require Discv5V.Generated.Params Discv5V.Model.Config Discv5V.Proofs.Config.
+Theorem C13_configured_filter_reaches_the_receive_path : forall ops v, Discv5V.Model.Config.start_node ops = Some v ->
+  Discv5V.Model.Config.VB (Discv5V.Model.Config.c_enable_packet_filter (Discv5V.Model.Config.nv_handler v)) = Discv5V.Model.Config.configured ops Discv5V.Model.Config.FEnablePacketFilter /\
+  Discv5V.Model.Config.VO (Discv5V.Model.Config.c_filter_max_nodes_per_ip (Discv5V.Model.Config.nv_handler v)) = Discv5V.Model.Config.configured ops Discv5V.Model.Config.FFilterMaxNodesPerIp /\
+  Discv5V.Model.Config.VO (Discv5V.Model.Config.c_filter_max_bans_per_ip (Discv5V.Model.Config.nv_handler v)) = Discv5V.Model.Config.configured ops Discv5V.Model.Config.FFilterMaxBansPerIp /\
+  Discv5V.Model.Config.VR (Discv5V.Model.Config.c_filter_rate_limiter (Discv5V.Model.Config.nv_handler v)) = Discv5V.Model.Config.configured ops Discv5V.Model.Config.FFilterRateLimiter.
+Proof. exact Discv5V.Proofs.Config.effective_filter. Qed.
+Print Assumptions C13_configured_filter_reaches_the_receive_path.
+Theorem C13_configuration_example : exists v, Discv5V.Model.Config.start_node Discv5V.Proofs.Config.example_ops = Some v.
+Proof. destruct Discv5V.Proofs.Config.example_starts as [v [H _]]. exists v. exact H. Qed.
+Print Assumptions C13_configuration_example.
+
+(* The receive task in front of the handler (RecvHandler::handle_inbound, Model/Limiter.v recv_inbound,
+   compared with the real task through the virtual handler on generated datagrams): *)
+Require Discv5V.Model.Limiter Discv5V.Proofs.Limiter.
+Module C13Recv.
+Import Discv5V.Model.Limiter.
+Theorem C13_exemption_is_per_socket_address : forall (f : pfilter) (p : pbl) (expected : list saddr) (src : saddr) (packet : option pkind) (now : N),
+  (forall e : saddr, In e expected -> sa_ip e <> sa_ip src \/ sa_port e <> sa_port src) ->
+  recv_inbound f p expected src packet now = recv_inbound f p nil src packet now.
+Proof. exact Discv5V.Proofs.Limiter.exemption_is_per_socket_address. Qed.
+Print Assumptions C13_exemption_is_per_socket_address.
+Theorem C13_awaited_source_bypasses_the_filter : forall (f : pfilter) (p : pbl) (expected : list saddr) (src : saddr) (packet : option pkind) (now : N),
+  In (normalise_src src) expected ->
+  recv_inbound f p expected src packet now =
+  (f, p, match packet with Some _ => Deliver | None => Unrecognized end, normalise_src src).
+Proof. exact Discv5V.Proofs.Limiter.exempted_source_bypasses_filter. Qed.
+Print Assumptions C13_awaited_source_bypasses_the_filter.
+End C13Recv.
